@@ -116,6 +116,14 @@ INNER = [
     ('inner_complete_refusedmetadata', P_ACT, {'A': comp(1), 'B': BADMD}, 3),
     ('inner_studymetadata_createstudy2', P0, {'A': md_study('v1'), 'B': CS2}, 3),
     ('inner_stop_refusedmetadata', P_ACT, {'A': STOP1, 'B': BADMD}, 3),
+    # a check and the write it guards in two critical sections of the datastore: DeleteStudy (no service-level lock) lands between
+    ('inner_deletestudy_createtrial', P0, {'A': DELS, 'B': REQ}, 3),
+    ('inner_deletestudy_suggest', P0, {'A': DELS, 'B': sug('w1')}, 3),
+    # RAM: copies made after the datastore lock was released read live tables (the extra yield point is every deepcopy made
+    # while the lock is NOT held - none on today's code)
+    ('inner_ram_listtrials_createtrial', P_POOL, {'A': {'rpc': 'ListTrials', 's': 's1'}, 'B': REQ}, 3),
+    ('inner_ram_listtrials_deletetrial', P_POOL, {'A': {'rpc': 'ListTrials', 's': 's1'}, 'B': DEL1}, 3),
+    ('inner_ram_suggest_createtrial', P_POOL, {'A': sug('w1'), 'B': REQ}, 2),
 ]
 TRIPLES = [
     ('three_suggest_create_complete', P_ACT, {'A': sug('w2', ps=('p2',)), 'B': REQ, 'C': comp(1)}, 1),
@@ -146,14 +154,19 @@ def run_schedule(args):
     real_ds = w.svc.datastore._i        # behind the scheduler's proxy
     real_lock = real_ds._lock
 
+    held = []
+
     class ReleaseYieldLock:
       """The datastore's own lock, plus a yield point right after every release (only one thread runs at a time)."""
 
       def __enter__(self):
         real_lock.acquire()
+        held.append(1)
         return self
 
       def __exit__(self, *a):
+        if held:
+          held.pop()
         real_lock.release()
         tid = getattr(threading.current_thread(), 'verif_tid', None)
         if tid is not None:
@@ -165,6 +178,22 @@ def run_schedule(args):
       def release(self):
         self.__exit__()
     real_ds._lock = ReleaseYieldLock()
+    if backend == 'ram':
+      import copy as _copy
+      from vizier._src.service import ram_datastore as _ram
+
+      class YieldingCopy:
+        """ram_datastore's 'copy' module: a deepcopy made while the datastore lock is not held is a yield point."""
+
+        @staticmethod
+        def deepcopy(x, *a, **k):
+          tid = getattr(threading.current_thread(), 'verif_tid', None)
+          if tid is not None and not held:
+            s.yield_point(tid, ('ds-copy', 'unlocked'))
+          return _copy.deepcopy(x, *a, **k)
+
+        copy = staticmethod(_copy.copy)
+      _ram.copy = YieldingCopy
   lock = threading.Lock()
 
   def mk(tid, c):
@@ -182,6 +211,10 @@ def run_schedule(args):
   except sched.Deadlock as e:
     deadlock = str(e)
   restore()
+  if inner and backend == 'ram':
+    import copy as _copy2
+    from vizier._src.service import ram_datastore as _ram2
+    _ram2.copy = _copy2
   if deadlock is None:
     # a deleted study is created again before the final state is read: rows that outlived their study become visible
     for c in ([CS] if any(x['rpc'] == 'DeleteStudy' for x in calls.values()) else []):
@@ -293,7 +326,7 @@ def run(ctx, only=None):
   backends = ['ram', 'sqlmem'] if ctx.thorough else ['ram']
   jobs = []
   for name, prefix, calls, qbound in scen:
-    for b in (['sqlmem'] if name.startswith('inner_') else backends if 'deletestudy' not in name else ['ram', 'sqlmem']):
+    for b in (['ram'] if name.startswith('inner_ram_') else ['sqlmem'] if name.startswith('inner_') else backends if 'deletestudy' not in name else ['ram', 'sqlmem']):
       bound = qbound if not ctx.thorough else (None if len(calls) == 2 else 2)
       limit = 4000 if not ctx.thorough else 20000
       if b == 'sqlmem' and bound is None and len(calls) == 2 and any(c['rpc'] == 'SuggestTrials' for c in calls.values()):
@@ -352,6 +385,12 @@ def run(ctx, only=None):
     sb = cov.get('spec_b', {})
     cov.update({'states': res.distinct + sum(v['distinct_states'] for v in sb.values()), 'transitions': res.generated + sum(v['generated'] for v in sb.values()),
                 'traces_validated_against_impl': len(all_traces)})
+    if not only:
+      # lock identity: one accepted spelling per resource (spec/ResourceNames.tla)
+      import c04_names
+      nl = c04_names.run(ctx, d)
+      cov['states'] += nl['distinct_states']
+      cov['traces_validated_against_impl'] += nl['parses_replayed']
     if index:
       name, b, schedule, events, labels, calls, prefix = index[len(index) // 2]
       ctx.sample({'scenario': name, 'schedule': ''.join(schedule), 'yield_sequence': ['%s:%s' % x for x in labels][:30]})
@@ -369,6 +408,9 @@ def pair_name(calls):
 
 def replay(ctx, case):
   c = case['case']
+  if c.get('kind') == 'resource-name':
+    import c04_names
+    return c04_names.replay(ctx, c)
   actual, choices, events, deadlock, labels = run_schedule((c['scenario'], c['prefix'], c['calls'], c['schedule'], c['backend']))
   with tlc.Scratch('c04') as d:
     if deadlock:
